@@ -28,10 +28,10 @@ ASSUMPTIONS = [
     "held means: held on the executions listed in coverage",
 ]
 
-DUR = [0.01, 0.02, 0.03, 0.05, 0.06, 0.07, 0.09, 0.1, 0.11, 0.12, 0.14, 0.15, 0.19, 0.2, 0.21, 0.28, 0.29, 0.3, 0.35,
+DUR = [10, 30, 60.0, 0.01, 0.02, 0.03, 0.05, 0.06, 0.07, 0.09, 0.1, 0.11, 0.12, 0.14, 0.15, 0.19, 0.2, 0.21, 0.28, 0.29, 0.3, 0.35,
        0.38, 0.4, 0.45, 0.5, 0.55, 0.57, 0.6, 0.7, 0.8, 0.9, 1, 1.0, 1.1, 1.2, 1.4, 1.5, 1.9, 2, 2.3, 3, 3.3, 5, 7.5, 10]
-SIL = [0, 0.0, 0.01, 0.02, 0.03, 0.05, 0.06, 0.07, 0.1, 0.14, 0.15, 0.19, 0.2, 0.3, 0.38, 0.5, 0.57, 0.9, 1]
-WIN = [0.01, 0.02, 0.03, 0.05, 0.07, 0.1, 0.15, 0.19, 0.2, 0.25, 0.3, 0.4, 0.5, 1, 0.001, 0.005, 0.0125]
+SIL = [0, 0.0, 10, 0.01, 0.02, 0.03, 0.05, 0.06, 0.07, 0.1, 0.14, 0.15, 0.19, 0.2, 0.3, 0.38, 0.5, 0.57, 0.9, 1]
+WIN = [0.01, 0.02, 0.03, 0.05, 0.07, 0.1, 0.15, 0.19, 0.2, 0.25, 0.3, 0.4, 0.5, 1, 0.001, 0.005, 0.0125, 10, 10.0, 30]
 RATES = [8, 10, 100, 1000, 8000, 16000, 44100]
 BAD = [0, -0.1, -1]
 
@@ -277,6 +277,31 @@ def overlap_reader_cases(ctx, rng, n):
             ctx.violation("overlap-reader-regions-differ-from-model(block-duration-windows)", {"case": case, "observed": got[:12], "expected": exp[:12]})
 
 
+def near_integer_small_counts(ctx, rng, n):
+    """a handful of windows, durations that miss a whole number of windows by 2e-8 windows (20x outside the 1e-9 rule)."""
+    for _ in range(n):
+        k = rng.randint(2, 9)
+        w, rate = rng.choice(((0.01, 100), (0.02, 100), (0.05, 100), (0.1, 10)))
+        d = 2e-8
+        which = rng.choice(("max_below", "min_above", "sil_below"))
+        if which == "max_below":
+            min_dur, max_dur, max_silence = w, (k - d) * w, 0          # k-1 windows allowed
+        elif which == "min_above":
+            min_dur, max_dur, max_silence = (k + d) * w, (3 * k) * w, 0  # k+1 windows needed
+        else:
+            min_dur, max_dur, max_silence = w, (3 * k) * w, (k - d) * w  # k-1 silent windows tolerated
+        if any(W.in_ambiguous_band(x, w) for x in (min_dur, max_dur, max_silence) if x > 0):
+            continue
+        n_min, n_max, n_sil = W.counts(min_dur, max_dur, max_silence, w)
+        block = W.block_size(w, rate)
+        pat = [(0, 2), (1, k), (0, k), (1, 2), (0, k - 1), (1, 3), (0, k + 2)]
+        v = verdicts_of(pat)
+        exp = seg(v, n_min, n_max, n_sil, False, False)
+        case = {"burst": [min_dur, max_dur, max_silence, w, rate], "pattern": pat, "drop": False, "strict": False, "style": rng.choice(("bytes", "reader", "region-method")), "ragged": 0}
+        ctx.count("near_integer_small_count_cases")
+        one_burst(ctx, case, make_audio(pat, block), v, exp, n_min, n_max, n_sil, block)
+
+
 def large_quotient_cases(ctx, rng, n):
     """quotients of several hundred windows that are clearly NOT integers (|q - k| >= 2e-8, far outside the 1e-9 rule)."""
     for _ in range(n):
@@ -308,6 +333,7 @@ def run_shard(ctx):
     rng0 = ctx.rng("extra")
     overlap_reader_cases(ctx, rng0, 30 if ctx.tier == "quick" else 1500)
     large_quotient_cases(ctx, rng0, 6 if ctx.tier == "quick" else 200)
+    near_integer_small_counts(ctx, rng0, 30 if ctx.tier == "quick" else 1500)
     # (a) accept / reject grid (exhaustive over the literal grid, partitioned between shards)
     idx = 0
     durs = DUR + BAD
@@ -320,7 +346,7 @@ def run_shard(ctx):
                 if not ctx.mine(idx):
                     continue
                 for max_dur in (durs if full else durs[1::3] + BAD[:1]):
-                    for max_silence in ((SIL + [-0.1]) if full else SIL[::3] + [-0.1]):
+                    for max_silence in ((SIL + [-0.1, -1e-12, -5e-324, 0.3 - 0.2 - 0.1]) if full else SIL[::3] + [-0.1, -1e-12, 0.3 - 0.2 - 0.1]):
                         accept_case(ctx, min_dur, max_dur, max_silence, w, rate)
             if ctx.out_of_time():
                 return
@@ -372,7 +398,7 @@ def inconclusive(merged, tier):
     c = merged["counters"]
     return [f"monitor never observed {k}" for k in
             ("accept_grid_accepted", "accept_grid_ValueError", "burst_cases", "burst_regions_observed",
-             "burst_style_bytes", "burst_style_reader", "burst_style_region", "bursts_with_a_shorter_final_window", "overlap_reader_regions", "large_quotient_cases", "reader_with_conflicting_window_keyword", "accept_grid_spelling_bytes-aw", "crisp_burst_of_exactly_ceil(min_dur/w)",
+             "burst_style_bytes", "burst_style_reader", "burst_style_region", "bursts_with_a_shorter_final_window", "overlap_reader_regions", "large_quotient_cases", "near_integer_small_count_cases", "reader_with_conflicting_window_keyword", "accept_grid_spelling_bytes-aw", "crisp_burst_of_exactly_ceil(min_dur/w)",
              "crisp_burst_of_ceil(min_dur/w)-1", "reject_clause:window shorter than one sample",
              "reject_clause:min_dur needs more windows than max_dur allows",
              "reject_clause:max_silence not below max_dur in windows") if c.get(k, 0) == 0]
